@@ -107,7 +107,7 @@ def rel_C17(ln, prev):
 
 
 def rel_C20(ln, prev):
-    return ln['op'] in {'ResAdd', 'ResRemove'} or (len(ln.get('obs', {}).get('res', [])) > 0 and ln['op'] in STRUCT_OPS)
+    return ln['op'] in {'ResAdd', 'ResRemove', 'ResGet'} or (len(ln.get('obs', {}).get('res', [])) > 0 and ln['op'] in STRUCT_OPS)
 
 
 def world_check(ctx, relevant, profiles, mcs=(), scenarios=(), level='model_checking', assumptions=(), tags='verif',
